@@ -1641,8 +1641,10 @@ def deep_check(sc):
 
 
 def deep_oracle(ctx):
-    def make(rng):
-        return {"depth": rng.choice([1200, 2000, 3000]), "kind": rng.choice(["dict", "list", "mixed"])}
+    kinds = iter(["dict", "list", "mixed"] * 4)
+
+    def make(rng):      # every kind in every run (three cases at the quick tier)
+        return {"depth": rng.choice([1200, 2000, 3000]), "kind": next(kinds)}
     _run(ctx, "deep", 3, 12, make, deep_check)
 
 
